@@ -280,6 +280,11 @@ func Run(c *common.Ctx) error {
 			scens = append(scens, scen{Cycles: 1 + r.Intn(3), PageSizes: pss, WAL: r.Bool(), LagReplica: r.Bool(), LateJoin: r.Bool(), RestartP: r.Chance(30)})
 		}
 	}
+	for _, wal := range []bool{false, true} {
+		if err := dropCrashPoints(c, c.Rng.Fork(), wal); err != nil {
+			return err
+		}
+	}
 	for _, sc := range scens {
 		if err := runScen(c, sc, c.Rng.Fork(), cf); err != nil {
 			return fmt.Errorf("scenario %+v: %w", sc, err)
